@@ -14,7 +14,7 @@ EXPLANATION = ("Each estimator class is executed on symbolic complex data x and,
 BOUNDS = {
     "quick": "N=3 (4 for MUSIC-free covariance family), order 1, NFFT=4 (all shifts m=1..3) and NFFT=3 for the Fourier estimators; "
              "classes: Periodogram, pcorrelogram, pburg, pyule, pcovar, pmodcovar, pminvar, MultiTapering (+pma, parma for the real/one-sided clause)",
-    "thorough": "adds NFFT in {5, 6, 8} for the Fourier classes and NFFT=5 for the parametric ones, order 2 at NFFT=4; one-sided NFFT 6; reversal NFFT 5",
+    "thorough": "adds NFFT in {5, 6, 8} for the Fourier classes, NFFT=5 (mirror only) and order 2 at NFFT=4 for the parametric ones; one-sided NFFT 6; reversal NFFT 5",
 }
 ASSUMPTIONS = ["floats modelled as exact reals", "fft = DFT definition, exact twiddles", "lstsq exact", "multitaper tapers supplied as constants "
                "(first symmetric, second antisymmetric)"]
@@ -132,6 +132,8 @@ def cases(tier, seed):
                 continue
             for order in ((1,) if (q or fourier or name == 'pminvar' or n > 4) else (1, 2)):
                 for m in (range(1, n) if (q and n <= 4) or not q else (1, n - 1)):
+                    if not fourier and n == 5:
+                        continue        # shift of a parametric estimate on the generic 5-point grid: no verdict within 300 s per query
                     out.append(Case("shift:%s:NFFT=%d:m=%d:order=%d" % (name, n, m, order), case_shift,
                                     dict(name=name, n=n, m=m, order=order), **T))
                 out.append(Case("mirror:%s:NFFT=%d:order=%d" % (name, n, order), case_mirror, dict(name=name, n=n, order=order), **T))
